@@ -645,7 +645,7 @@ def run(ctx: Any) -> None:
     for excs in corpus_excs():
         for cfg in configs():
             site_case(ctx, excs, cfg)
-    for _ in range(ctx.budget(9, 220)):
+    for _ in range(ctx.budget(10, 220)):
         excs = [gen_exc(rng) for _ in range(8)]
         for cfg in configs():
             site_case(ctx, excs, cfg)
